@@ -13,8 +13,7 @@ for p in $SRC/*.diff; do
   : > benign/$n/result.txt
   git -C $WT checkout -q -- . ; git -C $WT clean -fdq
   git -C $WT apply $PWD/benign/$n/patch.diff || { echo "$n patch does not apply" >> benign/$n/result.txt; continue; }
-  (cd $WT && /venv/bin/python -m pytest -q -p no:cacheprovider --timeout=900 2>&1 | tail -1 | sed "s/^/$n tests: /") >> benign/$n/result.txt
-  AFF=$(PYVC_REPO=$WT python3 tools_affected.py)
+  AFF=$(PYVC_REPO=$WT python3 tools_affected.py --cover)
   echo "$n affected: $AFF" >> benign/$n/result.txt
   for P in $AFF; do
     out=$(PYVC_REPO=$WT PYVC_OUT=/tmp/pyvc_out_benign ./check $P 2>&1 | grep -v -e WARNING -e "(0,0)" -e KNOWN)
